@@ -401,7 +401,9 @@ func (e *ecEnv) signCase(k ecKey, h hcfg, m msgCase, dirty bool) []byte {
 	cls := h.name + "/" + m.cls
 	c.Current(N + " sign " + k.label + " " + cls)
 	msg := append([]byte(nil), m.m...)
-	desc := func() string { return fmt.Sprintf("key %s (%s) hash=%s msg(%s)=%s", k.label, hx(k.sk.Bytes()), h.name, m.cls, hx(m.m)) }
+	desc := func() string {
+		return fmt.Sprintf("key %s (%s) hash=%s msg(%s)=%s", k.label, hx(k.sk.Bytes()), h.name, m.cls, hx(m.m))
+	}
 	z, _, _, herr := e.zOf(h, m.m)
 	var sig []byte
 	var err error
@@ -732,7 +734,66 @@ func (e *ecEnv) crafted(k ecKey, h hcfg, m msgCase) {
 			fs = append(fs, fg{e.sigOf(rr, ss), dg})
 		}
 		par(len(fs), func(i int) { e.decide("crafted/existential-forgery-for-chosen-digest", k.pk, fs[i].sig, fs[i].msg, h) })
+		// commitment with abscissa in [n, p): the reduction of x(X) modulo n matters (never met by honest signatures when p ~ n)
+		for i := 0; i < c.Pick(2, 8); i++ {
+			if w, ok := e.wrapCase(); ok {
+				pk := e.d.MakePub(w.Q.X[0], w.Q.Y[0])
+				e.decide("crafted/x(X)>=n", pk, e.sigOf(w.r, w.s), w.digest, h)
+				e.decide("crafted/x(X)>=n,r-not-reduced", pk, e.sigOf(w.X.X[0], w.s), w.digest, h)
+			}
+		}
 	}
+}
+
+// wrapCase builds a triple that the equation accepts and whose commitment X has an abscissa in [n, p) (so that
+// r = x(X) - n): X is lifted from x = n + j, the key is Q = u2^-1 (X - u1 G) for random u1, u2 (nobody knows its
+// discrete logarithm), s = r/u2, u1 = z/s for a random digest z of FrBytes-1 bytes (shorter than the order, so no
+// truncation rule applies). Only possible when p > n; ok=false otherwise.
+type wrapped struct {
+	Q, X   ocurve.Pt
+	r, s   *big.Int
+	digest []byte
+}
+
+func (e *ecEnv) wrapCase() (wrapped, bool) {
+	g, n := e.g, e.g.R
+	if g.P.Cmp(n) <= 0 {
+		return wrapped{}, false
+	}
+	for j := int64(0); j < 400; j++ {
+		x := new(big.Int).Add(n, big.NewInt(j))
+		if x.Cmp(g.P) >= 0 {
+			return wrapped{}, false
+		}
+		X, ok := g.C.LiftX(ofield.El{x})
+		if !ok {
+			continue
+		}
+		if e.rng.Bool() {
+			X = g.C.Neg(X)
+		}
+		r := new(big.Int).Sub(x, n)
+		if r.Sign() == 0 {
+			continue
+		}
+		for try := 0; try < 8; try++ {
+			u2 := new(big.Int).Add(e.rng.BigBelow(new(big.Int).Sub(n, one)), one)
+			s := new(big.Int).Mul(r, new(big.Int).ModInverse(u2, n))
+			s.Mod(s, n)
+			z := e.rng.BigBits(8 * (e.nb - 1)) // a digest one byte shorter than the order: no truncation under any rule
+			if s.Sign() == 0 || 8*(e.nb-1) > e.d.FrBits {
+				continue
+			}
+			u1 := new(big.Int).Mul(z, new(big.Int).ModInverse(s, n))
+			u1.Mod(u1, n)
+			Q := g.C.Mul(g.C.Sub(X, g.C.Mul(g.G, u1)), new(big.Int).ModInverse(u2, n))
+			if Q.Inf {
+				continue
+			}
+			return wrapped{Q: Q, X: X, r: r, s: s, digest: z.FillBytes(make([]byte, e.nb-1))}, true
+		}
+	}
+	return wrapped{}, false
 }
 
 func (e *ecEnv) sigFormat(cls string, sig []byte) {
@@ -878,6 +939,31 @@ func (e *ecEnv) recover(keys []ecKey, hashes []hcfg) {
 	for i := 0; i < c.Pick(24, 300); i++ {
 		as = append(as, ar{"random-rs", e.rng.Bytes(e.nb), uint(i % 4), new(big.Int).Add(e.rng.BigBelow(new(big.Int).Sub(g.R, one)), one), new(big.Int).Add(e.rng.BigBelow(new(big.Int).Sub(g.R, one)), one)})
 	}
+	// x = r + n < p: the second candidate abscissa of SEC 1 4.1.6 (recovery id bit 1)
+	for i := 0; i < c.Pick(3, 12); i++ {
+		w, ok := e.wrapCase()
+		if !ok {
+			break
+		}
+		v := uint(2) | w.X.Y[0].Bit(0)
+		desc := func() string {
+			return fmt.Sprintf("digest=%s v=%d r=%s s=%s (commitment X=%s, x(X)=r+n)", hx(w.digest), v, w.r.Text(16), w.s.Text(16), g.C.String(w.X))
+		}
+		var rk signature.PublicKey
+		var err error
+		if c.Guard(N+"/RecoverFrom/panic/x=r+n", desc, func() { rk, err = e.d.RecoverFrom(append([]byte(nil), w.digest...), v, w.r, w.s) }) {
+			continue
+		}
+		okk := err == nil
+		if okk {
+			x, y := e.d.PubXY(rk)
+			okk = g.C.Eq(wpt(x, y), w.Q)
+		}
+		c.Check("RecoverFrom", N+"/RecoverFrom/mismatch/x=r+n", okk, func() string { return desc() + " err=" + errStr(err) + " want " + g.C.String(w.Q) })
+		c.Class(N + "/RecoverFrom/x=r+n")
+		// and with bit 1 cleared the other abscissa (x = r) is used: decided like every arbitrary input below
+		as = append(as, ar{"x=r+n-case/v-bit1-cleared", w.digest, v &^ 2, w.r, w.s})
+	}
 	zero, nn := new(big.Int), g.R
 	dg := e.rng.Bytes(e.nb)
 	as = append(as, ar{"r=0", dg, 0, zero, one}, ar{"s=0", dg, 0, one, zero}, ar{"r=n", dg, 0, nn, one}, ar{"s=n", dg, 0, one, nn},
@@ -900,7 +986,12 @@ func (e *ecEnv) recover(keys []ecKey, hashes []hcfg) {
 		if why != "" {
 			c.Check("RecoverFrom", N+"/RecoverFrom/no-error-without-candidate/"+why, err != nil, func() string {
 				x, y := e.d.PubXY(rk)
-				return fmt.Sprintf("%s: SEC 1 4.1.6 has no candidate point (%s) but a key (%s,%s) was returned", desc(), why, x.Text(16), y.Text(16))
+				verdict := "n/a"
+				if a.r.Sign() > 0 && a.s.Sign() > 0 && a.r.Cmp(g.R) < 0 && a.s.Cmp(g.R) < 0 && !(x.Sign() == 0 && y.Sign() == 0) {
+					d2, _ := p.VerifyZ(wpt(x, y), a.r, a.s, z)
+					verdict = d2.Reason
+				}
+				return fmt.Sprintf("%s: SEC 1 4.1.6 has no candidate point (%s) but RecoverFrom returned no error and the key (%s,%s); verification equation for (r,s) under that key: %s", desc(), why, x.Text(16), y.Text(16), verdict)
 			})
 			return
 		}
